@@ -138,6 +138,12 @@ var templates = []string{
 	"st.C = [1, 2, 3]\nfunc sh() { st.C = []; return %s }\nst.C[sh()]", "st.C = [1, 2, 3]\nfunc sh() { st.C = []; return %s }\nst.C[sh()] = 5", "st.C = [1, 2, 3]\nfunc sh() { st.C = []; return %s }\nst.C[sh():] = [9]",
 	"ll[0] = [1, 2, 3]\nfunc sh() { ll[0] = []; return %s }\nll[0][sh():]", "ll[0] = [1, 2, 3]\nfunc sh() { ll[0] = []; return %s }\nll[0][sh()]", "s2 = \"abc\"\nfunc sh() { s2 = \"\"; return %s }\ns2[sh():]",
 	"x = [%s]\n{x[0]: 1}", "x = {\"k\": %s}\nm[x.k] = 2", "x = id(%s)\nm[x]", "x = %s\ndelete(m, x)\ndelete(im, x)\ndelete(tm, x)",
+	// slots of assorted pointer types receiving pointers (typed nil ones among them) of another type
+	"pq = make([]*string, 2)\npq[0] = %s", "pm = make(map[string]*float64)\npm[\"k\"] = %s", "pc = make(chan *int32, 1)\npc <- %s", "pt = make(struct{P *int32, Q *string})\npt.P = %s\npt.Q = %s",
+	"pq = make([]*float64, 1)\npq[0] = pl[0]\npq[0] = %s", "pp = new(*int32)\n*pp = %s", "takesPtr(%s)", "takesPtrs(%s, %s)", "[]*int32{%s}", "map[string]*string{\"k\": %s}",
+	// two script goroutines that share scopes only (never a container): one keeps assigning, the other copies scopes (module assignment), defines, deletes
+	"cg = 0\ngo func() { for ci = 0; ci < 2000; ci++ { cg = ci } }()\nfor cj = 0; cj < 400; cj++ { cx = mod }", "module cm { v = 0; func set(a) { v = a } }\ngo func() { for ci = 0; ci < 2000; ci++ { cm.set(ci) } }()\nfor cj = 0; cj < 400; cj++ { cy = cm }",
+	"cg = 0\ngo func() { for ci = 0; ci < 2000; ci++ { cg = %s } }()\nfor cj = 0; cj < 400; cj++ { var cx = mod; delete(\"cx\") }", "go func() { for ci = 0; ci < 1000; ci++ { module cm { a = 1 } } }()\nfor cj = 0; cj < 400; cj++ { cx = mod; cz = cj }",
 	"try { %s(%s) } catch e { e.Error() }", "try { throw %s } catch e { e = %s }", "module m2 { a = %s }; m2.a(%s)", "x = %s; x.y = %s", "x = %s; x[0] = %s; x",
 }
 
